@@ -14,7 +14,7 @@ from agilerl.algorithms.core.registry import HyperparameterConfig, NetworkGroup
 from agilerl.algorithms.core.wrappers import OptimizerWrapper
 from agilerl.modules.base import EvolvableModule
 from agilerl.networks.q_networks import QNetwork
-from agilerl.typing import GymEnvType, ObservationType
+from agilerl.typing import ExperiencesType, GymEnvType, ObservationType
 from agilerl.utils.algo_utils import make_safe_deepcopies, obs_channels_to_first
 
 
@@ -209,16 +209,24 @@ class CQN(RLAlgorithm):
 
         return action
 
-    def learn(self, experiences: Tuple[torch.Tensor, ...]) -> float:
+    def learn(self, experiences: ExperiencesType) -> float:
         """Updates agent network parameters to learn from experiences.
 
-        :param experiences: List of batched states, actions, rewards, next_states, dones in that order.
-        :type obs: list[torch.Tensor[float]]
+        :param experiences: TensorDict of batched observations, actions, rewards, next_observations, dones
+            (as sampled from a replay buffer), or the same five items as a tuple in that order.
+        :type experiences: tensordict.TensorDict or tuple[torch.Tensor[float], ...]
 
         :return: Loss from learning
         :rtype: float
         """
-        states, actions, rewards, next_states, dones = experiences
+        if isinstance(experiences, (tuple, list)):
+            states, actions, rewards, next_states, dones = experiences
+        else:
+            states = experiences["obs"]
+            actions = experiences["action"]
+            rewards = experiences["reward"]
+            next_states = experiences["next_obs"]
+            dones = experiences["done"]
         if self.accelerator is not None:
             actions = actions.to(self.accelerator.device)
             rewards = rewards.to(self.accelerator.device)
